@@ -1,8 +1,8 @@
 SPECIFICATION Spec
-CONSTANT FileIds = {"root.jst", "a.jst", "b.jst", "c.jst"}
-CONSTANT MaxRoot = 2
-CONSTANT Variant = "graphs"
-CONSTANT MaxOther = 2
+CONSTANT FileIds = {"root.jst", "a.jst", "b.jst"}
+CONSTANT MaxRoot = 4
+CONSTANT Variant = "contexts"
+CONSTANT MaxOther = 3
 INVARIANT StackBounded
 INVARIANT OpenedInside
 INVARIANT Terminates
